@@ -251,7 +251,7 @@ def r4_5(cx):
             # (the pattern length may come through NonZeroUsize::new(pattern.len()) .. .get())
             okb = bg.kind == 'binop' and bg.op == 'Sub' and bg.a.has_call(GD + '::last_slice') and \
                 any(is_call(n, 'len') and n.args[0].strip().kind == 'param' and n.args[0].strip().info['i'] != 1 for n in bg.b.walk()) and \
-                not any(n.kind == 'binop' for n in bg.b.walk()) and all(c.op.rsplit('::', 1)[-1] in ('len', 'get', 'new', 'unwrap', 'expect', 'branch') for c in bg.b.calls())
+                not any(n.kind == 'binop' for n in bg.b.walk()) and all(c.op.rsplit('::', 1)[-1] in ('len', 'get', 'new', 'unwrap', 'expect', 'branch', 'try_from', 'try_into', 'from', 'into') for c in bg.b.calls())
             cx.check(okb, 'begin', rp, None, 'begin = len(last_slice()) - pattern.len()', fail_detail='begin is %s' % show(bg)[:100])
             cx.check(any(is_call(n, 'len') and n.strip().args[0].strip().kind == 'param' for n in ln.walk()), 'len', rp, None, 'len = pattern.len()', fail_detail='len is %s' % show(ln)[:80])
             # all three reads happen after the push
